@@ -12,6 +12,7 @@ import (
 	empty "github.com/golang/protobuf/ptypes/empty"
 	hclog "github.com/hashicorp/go-hclog"
 	"github.com/hashicorp/go-plugin/internal/plugin"
+	"github.com/hashicorp/go-plugin/internal/verifhook"
 	"google.golang.org/grpc"
 	"google.golang.org/grpc/codes"
 	"google.golang.org/grpc/status"
@@ -76,6 +77,7 @@ func (s *grpcStdioServer) StreamStdio(
 		}
 
 		// Send our data to the client.
+		verifhook.Point("stdio.stream.send", s, int64(data.Channel), int64(len(data.Data)))
 		if err := srv.Send(&data); err != nil {
 			return err
 		}
@@ -186,6 +188,7 @@ func copyChan(log hclog.Logger, dst chan<- []byte, src io.Reader) {
 		// We have to check if we have data BEFORE err != nil. The bufio
 		// docs guarantee n == 0 on EOF but its better to be safe here.
 		if n > 0 {
+			verifhook.Point("stdio.copy.read", nil, int64(n), 0)
 			// We have data! Send it on the channel. This will block if there
 			// is no reader on the other side. We expect that go-plugin will
 			// connect immediately to the stdio server to drain this so we want
